@@ -37,7 +37,7 @@ WORKER = ["C01", "C02", "C03", "C04", "C05", "C06", "C07", "C10", "C12"]
 TARGETS: Dict[str, List[str]] = {
     "taskiq/receiver/receiver.py": WORKER + ["C11"],
     "taskiq/receiver/params_parser.py": ["C08", "C01"],
-    "taskiq/kicker.py": ["C08", "C09", "C10", "C16", "C11"],
+    "taskiq/kicker.py": ["C08", "C09", "C10", "C16", "C11", "C13", "C14"],
     "taskiq/labels.py": ["C09", "C07"],
     "taskiq/message.py": ["C09", "C08"],
     "taskiq/middlewares/retry_middleware.py": ["C11", "C09"],
